@@ -1,4 +1,5 @@
 import Altrios.Train
+import Altrios.Braking
 import Proofs.Lemmas.Basic
 import Proofs.Lemmas.Ledger
 import Mathlib.Algebra.Order.Field.Basic
@@ -16,7 +17,8 @@ import Mathlib.Data.List.Basic
 -/
 set_option linter.unusedSectionVars false
 namespace Altrios.Proofs.BrakeL
-open Altrios Altrios.Tr Altrios.Rs Altrios.CS Altrios.Proofs.Basic Altrios.Proofs.LedgerL
+open Altrios Altrios.Tr Altrios.Rs Altrios.CS Altrios.SP Altrios.Tpc Altrios.Brk Altrios.Proofs.Basic
+  Altrios.Proofs.LedgerL
 
 variable {α : Type} [Field α] [LinearOrder α] [IsStrictOrderedRing α]
 
@@ -354,5 +356,138 @@ theorem fricOut_cases (fb1 fb' : FricBrake α) (fA fR eps fC : α)
   · obtain ⟨rfl, rfl⟩ := h
     exact ⟨rfl, rfl, rfl, rfl,
       Or.inr (Or.inr (Or.inr ⟨not_le.mp h1, not_le.mp h2, not_le.mp h3, rfl, rfl, h4⟩))⟩
+
+/-! ### `BrakingPoints::recalc` -/
+
+theorem getS_ok {l : List (Pt α)} {i : Nat} {p : Pt α} : getS l i = .ok p ↔ l[i]? = some p := by
+  unfold getS; cases l[i]? <;> simp
+
+/-- `update_res` never touches the static mass -/
+theorem updateRes_massStatic {g rho : α} {grades curves : List (PRC α)} {r : ResStrap α}
+    {st : ResState α} {dir : Dir} {x : ResStrap α × ResState α}
+    (h : updateRes g rho grades curves r st dir = .ok x) : x.2.massStatic = st.massStatic := by
+  unfold updateRes at h
+  simp only [bind_ok, pure_ok] at h
+  obtain ⟨_, _, _, _, _, _, _, _, rfl⟩ := h
+  rfl
+
+/-- invariant of the loops of `recalc`: every point pushed so far has `0 ≤ target ≤ limit`, and the
+    local `train_state` still carries the static mass `M` -/
+structure RcInv (M : α) (st : RcState α) : Prop where
+  bounds : ∀ p ∈ st.last :: st.rest, 0 ≤ p.target ∧ p.target ≤ p.limit
+  mass : st.r.massStatic = M
+
+theorem RcInv.push {M : α} {st : RcState α} (h : RcInv M st) (idx : Nat) (r : ResState α)
+    (strap : ResStrap α) (p : BrakingPoint α) (hr : r.massStatic = M)
+    (hp : 0 ≤ p.target ∧ p.target ≤ p.limit) :
+    RcInv M (({ st with idx := idx, r := r, strap := strap } : RcState α).push p) := by
+  refine ⟨?_, hr⟩
+  intro q hq
+  simp only [RcState.push, List.mem_cons] at hq
+  rcases hq with rfl | hq
+  · exact hp
+  · exact h.bounds q (by simpa using hq)
+
+theorem push_pts (st : RcState α) (idx : Nat) (r : ResState α) (strap : ResStrap α) (p : BrakingPoint α) :
+    let st' := (({ st with idx := idx, r := r, strap := strap } : RcState α).push p)
+    st'.last :: st'.rest = [p] ++ (st.last :: st.rest) := rfl
+
+section recalc
+variable (half g rho : α) (grades curves : List (PRC α)) (sps : List (Pt α))
+  (offsetBegin forceMax dt massRot : α)
+
+/-- one braking curve keeps the invariant and only APPENDS points (`0 ≤ dt`, `0 < m` make
+    `vel_change ≥ 0`) -/
+theorem recalcCurve_inv (M : α) (hdt : 0 ≤ dt) (hm : 0 < M + massRot) :
+    ∀ (f : Nat) (st st' : RcState α),
+      recalcCurveWith mn half g rho grades curves sps offsetBegin forceMax dt massRot f st = .ok st' →
+      RcInv M st →
+        RcInv M st' ∧ ∃ l, st'.last :: st'.rest = l ++ (st.last :: st.rest) := by
+  intro f
+  induction f with
+  | zero => intro st st' h; simp [recalcCurveWith] at h
+  | succ f ih =>
+    intro st st' h hinv
+    unfold recalcCurveWith at h
+    simp only [bind_ok, ensure_ok, decide_eq_true_iff, exists_const] at h
+    obtain ⟨idx, _, sp, _, ⟨strap, r⟩, hu, hpos, h⟩ := h
+    have hmass : r.massStatic = M := by
+      have := updateRes_massStatic hu
+      simpa [hinv.mass] using this
+    have hcur := hinv.bounds st.last (by simp)
+    have hvc : 0 ≤ dt * (forceMax + resNet r) / (r.massStatic + massRot) := by
+      rw [hmass]
+      exact div_nonneg (mul_nonneg hdt (le_of_lt hpos)) (le_of_lt hm)
+    have habs : (0 : α) ≤ absv sp.spd := by rw [absv_eq_abs]; exact abs_nonneg _
+    -- the two candidate points
+    have hp1 : 0 ≤ mn st.last.target (absv sp.spd) ∧ mn st.last.target (absv sp.spd) ≤ absv sp.spd := by
+      rw [mn_eq_min]; exact ⟨le_min hcur.1 habs, min_le_right _ _⟩
+    have hp2 : 0 ≤ st.last.target ∧
+        st.last.target ≤ st.last.limit + dt * (forceMax + resNet r) / (r.massStatic + massRot) :=
+      ⟨hcur.1, by linarith [hcur.2]⟩
+    have hI1 := hinv.push idx r strap
+      ⟨st.last.off - dt * absv sp.spd, absv sp.spd, mn st.last.target (absv sp.spd)⟩ hmass hp1
+    have hI2 := hinv.push idx r strap
+      ⟨st.last.off - dt * (st.last.limit + half * (dt * (forceMax + resNet r) / (r.massStatic + massRot))),
+        st.last.limit + dt * (forceMax + resNet r) / (r.massStatic + massRot), st.last.target⟩ hmass hp2
+    split_ifs at h with hlt hbrk hbeg hbeg
+    · simp only [pure_ok] at h; subst h; exact ⟨hI1, _, push_pts st idx r strap _⟩
+    · simp only [pure_ok] at h; subst h; exact ⟨hI1, _, push_pts st idx r strap _⟩
+    · obtain ⟨hI, l, hl⟩ := ih _ _ h hI1
+      exact ⟨hI, l ++ [⟨st.last.off - dt * absv sp.spd, absv sp.spd, mn st.last.target (absv sp.spd)⟩],
+        by rw [hl]; simp [RcState.push]⟩
+    · simp only [pure_ok] at h; subst h; exact ⟨hI2, _, push_pts st idx r strap _⟩
+    · obtain ⟨hI, l, hl⟩ := ih _ _ h hI2
+      exact ⟨hI, l ++ [⟨st.last.off - dt * (st.last.limit + half * (dt * (forceMax + resNet r) / (r.massStatic + massRot))),
+          st.last.limit + dt * (forceMax + resNet r) / (r.massStatic + massRot), st.last.target⟩],
+        by rw [hl]; simp [RcState.push]⟩
+
+/-- the outer loop keeps the invariant, only appends, ends with `idx = 0`, and — if it ran at all —
+    its last push is the FIRST speed point -/
+theorem recalcOuter_inv (M : α) (hdt : 0 ≤ dt) (hm : 0 < M + massRot) (curveFuel : Nat) :
+    ∀ (f : Nat) (st st' : RcState α),
+      recalcOuterWith mn half g rho grades curves sps offsetBegin forceMax dt massRot curveFuel f st
+        = .ok st' →
+      RcInv M st →
+        RcInv M st' ∧ (∃ l, st'.last :: st'.rest = l ++ (st.last :: st.rest)) ∧
+        (st.idx = 0 → st' = st) ∧
+        (0 < st.idx → ∃ sp, sps[0]? = some sp ∧ st'.last = ⟨sp.off, absv sp.spd, absv sp.spd⟩) := by
+  intro f
+  induction f with
+  | zero => intro st st' h; simp [recalcOuterWith] at h
+  | succ f ih =>
+    intro st st' h hinv
+    unfold recalcOuterWith at h
+    split_ifs at h with hidx
+    · simp only [bind_ok] at h
+      obtain ⟨sp, _, st1, hst1, sp', hsp', hrec⟩ := h
+      have hinv0 : RcInv M ({ st with idx := st.idx - 1 } : RcState α) := ⟨hinv.bounds, hinv.mass⟩
+      have h1 : RcInv M st1 ∧ ∃ l, st1.last :: st1.rest = l ++ (st.last :: st.rest) := by
+        split_ifs at hst1
+        · have := recalcCurve_inv half g rho grades curves sps offsetBegin forceMax dt massRot M hdt hm
+            curveFuel ({ st with idx := st.idx - 1 } : RcState α) st1 hst1 hinv0
+          exact this
+        · simp only [pure_ok] at hst1; subst hst1; exact ⟨hinv0, [], rfl⟩
+      obtain ⟨hI1, l1, hl1⟩ := h1
+      have habs : (0 : α) ≤ absv sp'.spd := by rw [absv_eq_abs]; exact abs_nonneg _
+      have hI2 : RcInv M (st1.push ⟨sp'.off, absv sp'.spd, absv sp'.spd⟩) := by
+        have := hI1.push st1.idx st1.r st1.strap ⟨sp'.off, absv sp'.spd, absv sp'.spd⟩ hI1.mass
+          ⟨habs, le_refl _⟩
+        exact this
+      obtain ⟨hI, ⟨l, hl⟩, hz, hpos⟩ := ih _ _ hrec hI2
+      refine ⟨hI, ⟨l ++ [⟨sp'.off, absv sp'.spd, absv sp'.spd⟩] ++ l1, ?_⟩, fun h0 => by omega, fun _ => ?_⟩
+      · rw [hl]
+        show l ++ (⟨sp'.off, absv sp'.spd, absv sp'.spd⟩ :: (st1.last :: st1.rest)) = _
+        rw [hl1]; simp
+      · by_cases h0 : st1.idx = 0
+        · have := hz h0
+          rw [this]
+          refine ⟨sp', ?_, rfl⟩
+          rw [← h0]; exact getS_ok.mp hsp'
+        · exact hpos (Nat.pos_of_ne_zero h0)
+    · simp only [pure_ok] at h; subst h
+      exact ⟨hinv, ⟨[], rfl⟩, fun _ => rfl, fun h0 => absurd h0 hidx⟩
+
+end recalc
 
 end Altrios.Proofs.BrakeL
